@@ -538,3 +538,46 @@ def c_integer_state(k):
             n_checked += 1
             k.prove(f"System.{n}: integer-typed arguments give the result of the float-typed arguments", ok, show=how)
         k.prove("vacuity guard: at least 50 System routines compared", n_checked >= 50, show=str(n_checked))
+
+
+@contract("C14", "real contributions/every output format of a System matrix is the same matrix", samples=0, replayable=False, timeout=60)
+def c_formats_agree(k):
+    """the scatter is stated for "each system-level matrix": whichever `format` is asked for (coo, csr, csc, array) the
+    entries are the sums of the contributions' blocks - several contributions add at the same entries in the mechanism
+    scene, so a conversion that does not accumulate duplicates shows (executed natively; the container itself is C15)"""
+    from vk import kit as K
+    from vk import npshim
+
+    if not k.sym:
+        raise K.Reject("decided by native execution")
+    import contextlib
+    import inspect
+    import io
+    import warnings
+
+    with npshim.active(False), warnings.catch_warnings(), contextlib.redirect_stdout(io.StringIO()):
+        warnings.simplefilter("ignore")
+        s = next(iter(_real_scenes().values()))()
+        s.assemble()
+        rng = np.random.default_rng(8)
+        vals = dict(t=0.37, q=s.q0 + 0.05 * rng.normal(size=s.nq), u=rng.normal(size=s.nu), u_dot=rng.normal(size=s.nu), la_g=rng.normal(size=s.nla_g), la_gamma=rng.normal(size=s.nla_gamma), la_c=rng.normal(size=s.nla_c), la_N=rng.normal(size=s.nla_N), la_F=rng.normal(size=s.nla_F))
+        n = 0
+        for name, f in inspect.getmembers(type(s), inspect.isfunction):
+            pars = inspect.signature(f).parameters
+            ps = [p for p in pars if p not in ("self", "format")]
+            if name.startswith("_") or "format" not in pars or not set(ps) <= set(_EVAL_ARGS):
+                continue
+            try:
+                ref = np.asarray(_dense(getattr(s, name)(*[vals[p] for p in ps], format="coo")), dtype=float)
+            except Exception:  # noqa: BLE001
+                continue
+            n += 1
+            for fmt in ("csr", "csc", "array"):
+                try:
+                    got = np.asarray(_dense(getattr(s, name)(*[vals[p] for p in ps], format=fmt)), dtype=float)
+                    ok = got.shape == ref.shape and bool(np.allclose(got, ref, rtol=1e-13, atol=1e-13))
+                    how = "" if ok else f"max deviation {np.max(np.abs(got - ref)):.3g}"
+                except Exception as e:  # noqa: BLE001
+                    ok, how = False, f"raised {type(e).__name__}: {e}"
+                k.prove(f"System.{name}: format '{fmt}' gives the matrix of format 'coo'", ok, show=how)
+        k.prove("vacuity guard: at least 25 matrix routines compared", n >= 25, show=str(n))
